@@ -9,7 +9,21 @@
 #include <Spectra/MatOp/DenseSymMatProd.h>
 #include <Spectra/MatOp/DenseGenMatProd.h>
 #include <Spectra/MatOp/SparseSymMatProd.h>
+#include <Spectra/MatOp/SparseGenMatProd.h>
+#include <Spectra/MatOp/DenseCholesky.h>
+#include <Spectra/MatOp/SparseCholesky.h>
+#include <Spectra/MatOp/SparseRegularInverse.h>
+#include <Spectra/MatOp/SymShiftInvert.h>
+#include <Spectra/MatOp/DenseSymShiftSolve.h>
+#include <Spectra/MatOp/SparseSymShiftSolve.h>
+#include <Spectra/MatOp/DenseGenRealShiftSolve.h>
+#include <Spectra/MatOp/SparseGenRealShiftSolve.h>
+#include <Spectra/MatOp/DenseGenComplexShiftSolve.h>
+#include <Spectra/MatOp/SparseGenComplexShiftSolve.h>
+#include <Spectra/SymGEigsSolver.h>
+#include <Spectra/SymGEigsShiftSolver.h>
 #include <Spectra/contrib/PartialSVDSolver.h>
+#include <Spectra/contrib/LOBPCGSolver.h>
 #include <Spectra/DavidsonSymEigsSolver.h>
 #include <thread>
 #include <atomic>
@@ -39,7 +53,13 @@ struct Args
 
 struct Job
 {
-    int kind;  // 0 private-operator family job, 1 shared DenseSymMatProd, 2 shared DenseGenMatProd, 3 shared SparseSymMatProd, 4 PartialSVD (private), 5 Davidson (private)
+    // 0 private-operator family job, 1 shared DenseSymMatProd, 2 shared DenseGenMatProd, 3 shared SparseSymMatProd, 4 PartialSVD (private), 5 Davidson (private),
+    // 6 shared SparseGenMatProd, 7 generalized solver on the library's wrappers (mode = sub; A-side product wrapper shared in the two non-shift modes when `share`),
+    // 8 LOBPCG (private), 9 shift solver on the library's own shift-solve wrapper (private; sub selects the wrapper)
+    int kind;
+    int sub = 0;
+    bool share = false;
+    long seed = 0;
     vf::Problem<Real> P;
     Args a;
     long spin = 0;
@@ -81,7 +101,202 @@ struct Shared
     std::unique_ptr<Spectra::DenseSymMatProd<double>> sym;
     std::unique_ptr<Spectra::DenseGenMatProd<double>> gen;
     std::unique_ptr<Spectra::SparseSymMatProd<double>> sp;
+    Eigen::SparseMatrix<double> Aspgen;
+    std::unique_ptr<Spectra::SparseGenMatProd<double>> spgen;
 };
+
+// symmetric positive definite matrix (eigenvalues in about [1.5, 2.5]) from a seed
+static Eigen::MatrixXd spd_from_seed(Index n, long seed)
+{
+    vf::Lcg g((uint64_t) seed * 2654435761u + 17u);
+    Eigen::MatrixXd B = Eigen::MatrixXd::Zero(n, n);
+    for (Index i = 0; i < n; i++)
+        B(i, i) = 2 + (double) g.u() / 2;
+    for (Index i = 0; i + 1 < n; i++)
+    {
+        double v = (double) g.u() / 4;
+        B(i, i + 1) = v;
+        B(i + 1, i) = v;
+    }
+    return B;
+}
+static Eigen::MatrixXd sym_from_seed(Index n, long seed)
+{
+    vf::Lcg g((uint64_t) seed * 40503u + 5u);
+    Eigen::MatrixXd A(n, n);
+    for (Index j = 0; j < n; j++)
+        for (Index i = 0; i <= j; i++)
+        {
+            A(i, j) = (double) g.u();
+            A(j, i) = A(i, j);
+        }
+    return A;
+}
+static Eigen::MatrixXd gen_from_seed(Index n, long seed)
+{
+    vf::Lcg g((uint64_t) seed * 69069u + 3u);
+    Eigen::MatrixXd A(n, n);
+    for (Index j = 0; j < n; j++)
+        for (Index i = 0; i < n; i++)
+            A(i, j) = (double) g.u();
+    return A;
+}
+
+// generalized symmetric solvers on the wrappers the library ships
+static vf::Snapshot generalized_job(const Job& j, Shared& sh)
+{
+    using namespace Spectra;
+    const Index n = j.P.n;
+    Eigen::MatrixXd A = j.share ? sh.Asym : sym_from_seed(n, j.seed);
+    Eigen::MatrixXd B = spd_from_seed(n, j.seed + 1);
+    Eigen::SparseMatrix<double> Asp = vf::to_sparse<double>(A), Bsp = vf::to_sparse<double>(B);
+    switch (j.sub)
+    {
+        case 0:
+        {
+            DenseSymMatProd<double> aop_private(A);
+            DenseSymMatProd<double>& aop = j.share ? *sh.sym : aop_private;
+            DenseCholesky<double> bop(B);
+            SymGEigsSolver<DenseSymMatProd<double>, DenseCholesky<double>, GEigsMode::Cholesky> eigs(aop, bop, j.P.nev, j.P.ncv);
+            return run_job<double>(eigs, n, j.a);
+        }
+        case 1:
+        {
+            SparseSymMatProd<double> aop(Asp);
+            SparseCholesky<double> bop(Bsp);
+            SymGEigsSolver<SparseSymMatProd<double>, SparseCholesky<double>, GEigsMode::Cholesky> eigs(aop, bop, j.P.nev, j.P.ncv);
+            return run_job<double>(eigs, n, j.a);
+        }
+        case 2:
+        {
+            DenseSymMatProd<double> aop_private(A);
+            DenseSymMatProd<double>& aop = j.share ? *sh.sym : aop_private;
+            SparseRegularInverse<double> bop(Bsp);
+            SymGEigsSolver<DenseSymMatProd<double>, SparseRegularInverse<double>, GEigsMode::RegularInverse> eigs(aop, bop, j.P.nev, j.P.ncv);
+            return run_job<double>(eigs, n, j.a);
+        }
+        case 3:
+        {
+            // A - sigma B with sigma = -20 is positive definite (||A|| <= n/2 <= 10, B >= 1)
+            typedef SymShiftInvert<double, Eigen::Dense, Eigen::Sparse> Op;
+            Op op(A, Bsp);
+            SparseSymMatProd<double> bop(Bsp);
+            SymGEigsShiftSolver<Op, SparseSymMatProd<double>, GEigsMode::ShiftInvert> eigs(op, bop, j.P.nev, j.P.ncv, -20.0);
+            return run_job<double>(eigs, n, j.a);
+        }
+        case 4:
+        {
+            // buckling: K = B positive definite, K_G = A, K - sigma K_G definite for sigma = 0.05
+            typedef SymShiftInvert<double, Eigen::Sparse, Eigen::Dense> Op;
+            Op op(Bsp, A);
+            SparseSymMatProd<double> bop(Bsp);
+            SymGEigsShiftSolver<Op, SparseSymMatProd<double>, GEigsMode::Buckling> eigs(op, bop, j.P.nev, j.P.ncv, 0.05);
+            return run_job<double>(eigs, n, j.a);
+        }
+        default:
+        {
+            typedef SymShiftInvert<double, Eigen::Dense, Eigen::Dense> Op;
+            Op op(A, B);
+            DenseSymMatProd<double> bop(B);
+            SymGEigsShiftSolver<Op, DenseSymMatProd<double>, GEigsMode::Cayley> eigs(op, bop, j.P.nev, j.P.ncv, -20.0);
+            return run_job<double>(eigs, n, j.a);
+        }
+    }
+}
+
+// shift solvers on the library's own shift-solve wrappers (each thread owns its wrapper: it is written by set_shift)
+static vf::Snapshot shift_wrapper_job(const Job& j)
+{
+    using namespace Spectra;
+    const Index n = j.P.n;
+    // the shift lies outside the spectrum: |entries| <= 1/2, so the spectral radius is at most n/2 <= 10
+    const double sigma = 11.5;
+    switch (j.sub)
+    {
+        case 0:
+        {
+            Eigen::MatrixXd A = sym_from_seed(n, j.seed);
+            DenseSymShiftSolve<double> op(A);
+            SymEigsShiftSolver<DenseSymShiftSolve<double>> eigs(op, j.P.nev, j.P.ncv, sigma);
+            return run_job<double>(eigs, n, j.a);
+        }
+        case 1:
+        {
+            Eigen::SparseMatrix<double> A = vf::to_sparse<double>(sym_from_seed(n, j.seed));
+            SparseSymShiftSolve<double> op(A);
+            SymEigsShiftSolver<SparseSymShiftSolve<double>> eigs(op, j.P.nev, j.P.ncv, sigma);
+            return run_job<double>(eigs, n, j.a);
+        }
+        case 2:
+        {
+            Eigen::MatrixXd A = gen_from_seed(n, j.seed);
+            DenseGenRealShiftSolve<double> op(A);
+            GenEigsRealShiftSolver<DenseGenRealShiftSolve<double>> eigs(op, j.P.nev, j.P.ncv, sigma);
+            return run_job<double>(eigs, n, j.a);
+        }
+        case 3:
+        {
+            Eigen::SparseMatrix<double> A = vf::to_sparse<double>(gen_from_seed(n, j.seed));
+            SparseGenRealShiftSolve<double> op(A);
+            GenEigsRealShiftSolver<SparseGenRealShiftSolve<double>> eigs(op, j.P.nev, j.P.ncv, sigma);
+            return run_job<double>(eigs, n, j.a);
+        }
+        case 4:
+        {
+            Eigen::MatrixXd A = gen_from_seed(n, j.seed);
+            DenseGenComplexShiftSolve<double> op(A);
+            GenEigsComplexShiftSolver<DenseGenComplexShiftSolve<double>> eigs(op, j.P.nev, j.P.ncv, sigma, 1.25);
+            return run_job<double>(eigs, n, j.a);
+        }
+        default:
+        {
+            Eigen::SparseMatrix<double> A = vf::to_sparse<double>(gen_from_seed(n, j.seed));
+            SparseGenComplexShiftSolve<double> op(A);
+            GenEigsComplexShiftSolver<SparseGenComplexShiftSolve<double>> eigs(op, j.P.nev, j.P.ncv, sigma, 1.25);
+            return run_job<double>(eigs, n, j.a);
+        }
+    }
+}
+
+static vf::Snapshot lobpcg_job(const Job& j)
+{
+    const Index n = j.P.n, k = j.P.nev;
+    vf::Snapshot out;
+    vf::Lcg g((uint64_t) j.seed * 977u + 1u);
+    Eigen::MatrixXd A = Eigen::MatrixXd::Zero(n, n);
+    for (Index i = 0; i < n; i++)
+        A(i, i) = (double) (i + 1) + (double) g.u() / 4;
+    for (Index i = 0; i + 1 < n; i++)
+    {
+        double v = (double) g.u() / 4;
+        A(i, i + 1) = v;
+        A(i + 1, i) = v;
+    }
+    Eigen::MatrixXd X(n, k);
+    for (Index c = 0; c < k; c++)
+        for (Index i = 0; i < n; i++)
+            X(i, c) = (double) g.u();
+    Eigen::SparseMatrix<double> Asp = vf::to_sparse<double>(A), Xsp = X.sparseView();
+    try
+    {
+        Spectra::LOBPCGSolver<double> solver(Asp, Xsp);
+        if (j.sub & 1)
+        {
+            Eigen::SparseMatrix<double> Bsp = vf::to_sparse<double>(spd_from_seed(n, j.seed + 2));
+            solver.setB(Bsp);
+        }
+        solver.compute((int) (5 + j.a.maxit), std::max(1e-10, (double) j.a.tol));
+        out.info = solver.info();
+        out.evals = vf::widen(solver.eigenvalues());
+        out.evecs = vf::widen(solver.eigenvectors());
+    }
+    catch (const std::exception& e)
+    {
+        out.threw = true;
+        out.what = e.what();
+    }
+    return out;
+}
 
 static vf::Snapshot execute_job(const Job& j, Shared& sh)
 {
@@ -133,6 +348,21 @@ static vf::Snapshot execute_job(const Job& j, Shared& sh)
             }
             break;
         }
+        case 6:
+        {
+            Spectra::GenEigsSolver<Spectra::SparseGenMatProd<double>> eigs(*sh.spgen, j.P.nev, j.P.ncv);
+            out = run_job<double>(eigs, sh.Aspgen.rows(), j.a);
+            break;
+        }
+        case 7:
+            out = generalized_job(j, sh);
+            break;
+        case 8:
+            out = lobpcg_job(j);
+            break;
+        case 9:
+            out = shift_wrapper_job(j);
+            break;
         default:
         {
             Eigen::MatrixXd M = vf::Narrow<double>::mat(j.P.A);
@@ -181,6 +411,13 @@ static void run_case(vf::Draw& d, vf::Case& c)
         sh.sym.reset(new Spectra::DenseSymMatProd<double>(sh.Asym));
         sh.gen.reset(new Spectra::DenseGenMatProd<double>(sh.Agen));
         sh.sp.reset(new Spectra::SparseSymMatProd<double>(sh.Asp));
+        Eigen::MatrixXd G = sh.Agen;
+        for (Index j = 0; j < ns; j++)
+            for (Index i = 0; i < ns; i++)
+                if (std::abs(i - j) > 3)
+                    G(i, j) = 0;
+        sh.Aspgen = vf::to_sparse<double>(G);
+        sh.spgen.reset(new Spectra::SparseGenMatProd<double>(sh.Aspgen));
     }
     std::vector<Job> jobs(T);
     std::ostringstream os;
@@ -189,7 +426,8 @@ static void run_case(vf::Draw& d, vf::Case& c)
     for (int t = 0; t < T; t++)
     {
         Job& j = jobs[t];
-        j.kind = (int) d.range("job_kind", 0, 5);
+        j.kind = (int) d.range("job_kind", 0, 9);
+        j.seed = d.range("job_seed", 0, 65535);
         if (j.kind == 0)
         {
             int fam = (int) d.range("family", 0, 5);
@@ -199,15 +437,44 @@ static void run_case(vf::Draw& d, vf::Case& c)
                 j.kind = 1;  // degenerate recipe: fall back to a shared-operator job
             }
         }
-        if (j.kind >= 1 && j.kind <= 3)
+        if (j.kind == 7)
+        {
+            j.sub = (int) d.range("generalized_mode", 0, 5);
+            j.share = (j.sub == 0 || j.sub == 2) && d.flag("share_A_wrapper");
+            if (j.share)
+                any_shared = true;
+            j.P.n = j.share ? ns : (Index) d.range("n", 6, nmax);
+            vf::draw_nev_ncv(d, j.P.n, false, j.P.nev, j.P.ncv);
+            j.P.family = vf::FAM_SYM;
+            c.cls("generalized_solver_job");
+        }
+        else if (j.kind == 8)
+        {
+            j.sub = (int) d.range("lobpcg_with_B", 0, 1);
+            j.P.nev = (Index) d.range("k", 1, 3);
+            j.P.n = (Index) d.range("n", 5 * j.P.nev + 1, std::max<Index>(5 * j.P.nev + 1, nmax));
+            j.P.ncv = j.P.nev;
+            j.P.family = vf::FAM_SYM;
+            c.cls("lobpcg_job");
+        }
+        else if (j.kind == 9)
+        {
+            j.sub = (int) d.range("shift_wrapper", 0, 5);
+            j.P.n = (Index) d.range("n", 6, nmax);
+            bool general = j.sub >= 2;
+            vf::draw_nev_ncv(d, j.P.n, general, j.P.nev, j.P.ncv);
+            j.P.family = general ? (j.sub >= 4 ? vf::FAM_GENCPLX : vf::FAM_GENREAL) : vf::FAM_SYMSHIFT;
+            c.cls("library_shift_wrapper_job");
+        }
+        else if ((j.kind >= 1 && j.kind <= 3) || j.kind == 6)
         {
             any_shared = true;
             j.P.n = ns;
-            bool general = (j.kind == 2);
+            bool general = (j.kind == 2 || j.kind == 6);
             vf::draw_nev_ncv(d, ns, general, j.P.nev, j.P.ncv);
             j.P.family = general ? vf::FAM_GEN : vf::FAM_SYM;
         }
-        else if (j.kind >= 4)
+        else if (j.kind == 4 || j.kind == 5)
         {
             vf::HermRecipe R = vf::make_herm<Real>(d, false, 4, nmax);
             j.P.n = R.n;
@@ -227,8 +494,10 @@ static void run_case(vf::Draw& d, vf::Case& c)
         j.a.start_seed = d.range("start_seed", 0, 255);
         j.spin = d.range("start_skew", 0, 2000);
         j.reps = (int) d.range("repetitions", 1, 3);
-        static const char* KN[6] = {"private", "shared DenseSymMatProd", "shared DenseGenMatProd", "shared SparseSymMatProd", "PartialSVD", "Davidson"};
-        os << " [" << KN[j.kind] << (j.kind == 0 ? std::string(" ") + vf::FAMILY_NAMES[j.P.family] : std::string()) << " n=" << j.P.n << " nev=" << j.P.nev << " x" << j.reps << "]";
+        static const char* KN[10] = {"private", "shared DenseSymMatProd", "shared DenseGenMatProd", "shared SparseSymMatProd", "PartialSVD", "Davidson", "shared SparseGenMatProd", "generalized", "LOBPCG", "library shift wrapper"};
+        static const char* GM[6] = {"Cholesky dense", "Cholesky sparse", "RegularInverse", "ShiftInvert", "Buckling", "Cayley"};
+        static const char* SW[6] = {"DenseSymShiftSolve", "SparseSymShiftSolve", "DenseGenRealShiftSolve", "SparseGenRealShiftSolve", "DenseGenComplexShiftSolve", "SparseGenComplexShiftSolve"};
+        os << " [" << KN[j.kind] << (j.kind == 7 ? std::string(" ") + GM[j.sub] + (j.share ? " (A wrapper shared)" : "") : std::string()) << (j.kind == 9 ? std::string(" ") + SW[j.sub] : std::string()) << (j.kind == 0 ? std::string(" ") + vf::FAMILY_NAMES[j.P.family] : std::string()) << " n=" << j.P.n << " nev=" << j.P.nev << " x" << j.reps << "]";
     }
     c.add_desc(os.str());
     if (any_shared)
